@@ -42,9 +42,15 @@ PROPS["C05"] = dict(T(16000, 40, 1000000, 900),
     note=NOTE,
     rule="Scenario: real Bootstrap + channelHolder over the simulated factory; closers drawn from seven kinds; 0-2 writers; 0-2 inbound chunks.")
 
+PROPS["C12"] = dict(T(6000, 60, 300000, 1200), race=True,
+    text="The same scenario families as the behavioural checks (channel writers/closers/pokers, the C05 closer mix on a real Bootstrap, bootstrap listen/connect/shutdown histories, idle-handler timers, pool scribblers) run in a race-instrumented build under the deterministic scheduler, whose own hand-offs are hidden from ThreadSanitizer (runtime.RaceDisable around park/resume, //go:norace runtime), so two accesses with no program synchronisation between them are reported however far apart they ran. Only reports with at least one access inside the repository count; the schedule that produced a report replays exactly.",
+    note=NOTE + " Happens-before detection: a race is reported only in schedules where both accesses actually execute; sync.Pool/sync.Map replacements add (over-approximated) happens-before edges like the originals.",
+    technique="deterministic simulation (seeded run-token scheduler, instrumented real code, simulated transport) with ThreadSanitizer as the oracle in a -race build",
+    rule="Scenario families borrowed from C01/C05/C11/C13/C20 with their functional oracles muted; violation = race report with an access in repository code, signature = the pair of functions.")
+
 NOT_APPLICABLE = {
     "C03": "Pipeline order and routing are pure functions of the build program and the event: the handler list is immutable after build and traversed by whichever goroutine delivers the event; no schedule, clock, fault or I/O behaviour enters. Simulation would only be relabelled input generation (DESIGN.md section 3, C03).",
     "C19": "pool.Pool adds no concurrency, time or I/O of its own: shard choice is arithmetic on sizes, mutual exclusion is entirely sync.Pool's, which the simulator has to replace by a stub, so simulated concurrent use would exercise the stub and not the repository (DESIGN.md section 3, C19).",
 }
-for _p in ["C04", "C07", "C08", "C09", "C12", "C13", "C14", "C15", "C16", "C17", "C20"]:
+for _p in ["C04", "C07", "C08", "C09", "C13", "C14", "C15", "C16", "C17", "C20"]:
     NOT_APPLICABLE.setdefault(_p, "check under construction in this session (planned as applicable, DESIGN.md section 3); not claimed until it runs clean")
